@@ -208,8 +208,7 @@ def planCTL (interp : Nat → Val → Option Nat) (op : ListOp) : Plan :=
     { locks := true
       pre := fun s =>
         if skipPre s (.swap i j) then .done {}
-        else if Gen.swap_ok_i { i := i, ulen := s.ulen } then .done {}
-        else if Gen.swap_ok_j { j := j, ulen := s.ulen } then .done {}
+        else if Gen.swap_reject { i := i, j := j, ulen := s.ulen } then .done {}
         else .cont {}
       crit := fun _ s => do let s' ← swapUnchecked s i j; .ok (s', {}) }
   | .reset =>
